@@ -14,6 +14,8 @@ If a generated proof no longer checks (conv.rs changed) the check searches a con
 (harness: real function vs i128 oracle, in all three build profiles)."""
 import json, os, re, sys, shutil, time
 import framework as F
+import conv_arms
+import cov_evidence
 
 sys.path.insert(0, os.path.join(F.VERIF, "translate"))
 import conv2coq as T
@@ -594,7 +596,7 @@ def search_failing_input(rep, S, bins, rng, tier, why):
             for f in uniq[:4]:
                 f = minimise_failure(bins[mode], f)
                 s, d = f["pair"]
-                got = {0: f["got"], 7: f"to_sample/from_sample disagree: {f['got']}", 8: f"panic kind {f['got']}",
+                got = {0: f["got"], 7: f"entry points disagree (Sample::to_sample vs Sample::from_sample / the module function conv::<src>::to_<dst>; replay the harness_line for all seven): {f['got']}", 8: f"panic kind {f['got']}",
                        6: f"{f['got']} returned, but {d}::new({f['got']}) is not Some({f['got']}): not a valid value of the target format by the crate's own validity check"}[f["tag"]]
                 rep.violation(f"{s}_to_{d}_{PROFILES[mode][0]}", dict(
                     kind=("conversion result is not a valid in-range value of the target format by the crate's own validity check (T::new)" if f["tag"] == 6
@@ -621,7 +623,7 @@ def search_failing_input(rep, S, bins, rng, tier, why):
             for f in uniq[:4]:
                 f = minimise_failure(npath, f)
                 s, d = f["pair"]
-                got = {0: f["got"], 7: f"to_sample/from_sample disagree: {f['got']}", 8: f"panic kind {f['got']}"}[f["tag"]]
+                got = {0: f["got"], 7: f"entry points disagree (Sample::to_sample vs Sample::from_sample / the module function conv::<src>::to_<dst>; replay the harness_line for all seven): {f['got']}", 8: f"panic kind {f['got']}"}[f["tag"]]
                 rep.violation(f"{s}_to_{d}_nostd", dict(
                     kind="conversion does not produce the exact power-of-two rescaling when dasp_sample is built without its std feature", why=why,
                     function=fn_name(S, s, d) if S is not None else f"conv::{s}::to_{d}", call=f"<{s} as Sample>::to_sample::<{d}>()",
@@ -711,7 +713,7 @@ def main(rep, tier, seed):
             obs, bad, errors = correspond(bins, items, "c01")
             for name, msg in errors:
                 rep.violation("correspondence_error_" + name.replace("/", "_"), {"kind": "correspondence could not be evaluated", "where": name, "log": msg}, no_input=True)
-            collect_stats(stats, items, obs)
+            collect_stats(stats, items, obs, S)
             stats["bad"] = len(bad)
             for idx in bad[:3]:
                 it = items[idx]
@@ -766,9 +768,17 @@ def main(rep, tier, seed):
     return finish(rep, info, tier, stats, times)
 
 
-def collect_stats(stats, items, obs):
+def collect_stats(stats, items, obs, S=None):
     seen_nt = set()
     hist = stats["hist"]
+    # which arm of every `if` of the conversions! bodies the values fed to THAT function take (llvm coverage has no
+    # regions there, see lib/conv_arms.py)
+    if S is not None:
+        fed = {}
+        for it, o in zip(items, obs):
+            if o is not None and it["kind"] not in ("consts", "range") and it["s"] != it["d"]:
+                fed.setdefault(S.dispatch[(it["s"], it["d"])], set()).update(it["vals"])
+        stats["arms"] = conv_arms.arm_coverage(S, fed)
     for it, o in zip(items, obs):
         if o is None:
             continue
@@ -796,7 +806,7 @@ def collect_stats(stats, items, obs):
 
 def finish(rep, info, tier, stats, times):
     th = info.get("theorems", [])
-    n_expected = 19
+    n_expected = 20
     cov = {
         "obligations": max(n_expected, len(th)), "discharged": len(th) if info.get("coq_ok") else 0,
         "checker_cmd": "translate/conv2coq.py; make -f Makefile.coq props/C01.vo (coqc 8.16.1, full .vo; 132 generated per-pair lemmas in gen/ConvProofs_*.v) + Print Assumptions audit",
@@ -811,7 +821,11 @@ def finish(rep, info, tier, stats, times):
         "model_vs_crate_evaluations": stats.get("values", 0), "crate_vs_i128_oracle_evaluations": stats.get("oracle", 0),
         "distinct_nontrivial": stats.get("nontrivial", 0),
         "rule": "entry points: every value goes through Sample::to_sample, Sample::from_sample, ToSample::to_sample_, FromSample::from_sample_, both of those again with only a `Duplex<_>` bound in scope, and the module function conv::<src>::to_<dst> (harness/src/direct.rs); the observation is `0 r` only if all seven agree (the sweeps against the i128 oracle use to_sample, from_sample and the module function). model-vs-crate: all 132 Sample::to_sample pairs + the 12 same-format conversions (blanket identity impl; model: Ok z, c01_same_format) x {debug, release, relchk = optimised with overflow checks on and debug assertions off (8-bit exhaustive, boundary and out-of-range sets; thorough: + a third of the random set; compared with the Checked model)}; every value of 8-bit sources, boundary-structured values (MIN, MIN+1, +-2^k+-1 on value and amplitude, -1, 0, 1, MAX-1, MAX, every k) plus random values of wider sources (700 per pair quick / 6000 thorough; thorough: every value of 16-bit sources by digest), out-of-range representation values of I24/U24/I48/U48; every result of a 24/48-bit target must satisfy T::new(r) == Some(r) (the crate's own validity check, observed as a flag); the crate's MIN/MAX/EQUILIBRIUM constants and T::new at the range ends against the generated format table; crate-vs-oracle: exhaustive <=16-bit (quick), <=24-bit and 32-bit in release (thorough), random + strided sweeps otherwise. non-trivial = distinct (pair, value) in the model-vs-crate set with a narrowing conversion of a negative amplitude that is not a multiple of the step (floor and truncation differ)",
-        "samples": stats.get("samples", []), "input_distribution": stats.get("hist", {}), "disagreements": stats.get("bad", 0),
+        "samples": stats.get("samples", []),
+        "input_distribution": dict(stats.get("hist", {}),
+                                   conv_rs_if_arms=dict(stats.get("arms", {}), how="counted from the parsed source (lib/conv_arms.py): for every `if` of a conversions! body, how many of the values this run fed to that very function took each arm; llvm coverage has no regions inside the macro `$body` expressions"),
+                                   source_regions_never_entered=cov_evidence.regions(PROP, "The bodies of the conversions! functions carry no llvm regions (rustc drops macro-argument spans): their branches are counted in conv_rs_if_arms on every run.")),
+        "disagreements": stats.get("bad", 0),
         "timing": dict(times, coq_s=info.get("coq_s")),
         "float_translation_validation": stats.get("float", {}),
         "explanation": "theorems: what Sample::to_sample dispatches to (translated from conv.rs on this run) equals the rescaling formula for all 132 pairs and every in-range input, no overflow panic in debug, same value in release; consequences from the formula for all formats; tie: generated model run by coqc against the crate through the public trait dispatch in both profiles, plus the crate against an independent i128 oracle",
